@@ -593,7 +593,7 @@ DERIVATION_WRAPPERS = [
     'std::convert::AsRef::as_ref',
     'yarel::memory::Gc::<T>::as_root', 'yarel::memory::Root::<T>::as_gc',
     'yarel::memory::Gc::<T>::as_ptr', 'std::cell::RefCell::<T>::as_ptr',
-    'std::iter::IntoIterator::into_iter', 'std::iter::Iterator::next',
+    'std::iter::IntoIterator::into_iter', 'std::iter::Iterator::next', 'std::iter::Iterator::enumerate', 'std::iter::Iterator::rev',
     'core::slice::<impl [T]>::iter', 'std::collections::HashMap::<K, V, S>::values',
     'std::collections::HashMap::<K, V, S>::keys', 'std::collections::HashMap::<K, V, S>::iter',
     'std::ops::Index::index', 'std::ops::IndexMut::index_mut',
